@@ -514,19 +514,36 @@ def D12 (fs : FS) : Bool :=
 
 /-! ## deterministic scheduling and fault injection (for the driver and for `decide` witnesses) -/
 
-/-- order in which rmtree unlinks the entries -/
+/-- order in which rmtree unlinks the entries (the harness decides it; `os.scandir` order is arbitrary) -/
 inductive RmOrder where
-  | listed | metaFirst | metaLast
+  | sorted | metaFirst | metaLast
 deriving DecidableEq, Repr, Inhabited
+
+/-- alphabetical order of the real file names: `<p>-00000i` < `<p>-00000i_temp` < `<p>-metadata.json` < `metadata_<p>-…` -/
+def nameOrd : Name → Nat × Nat × Nat
+  | .chunk i => (0, i, 0)
+  | .tmp i => (0, i, 1)
+  | .md => (1, 0, 0)
+  | .cmeta i => (2, i, 0)
+
+def nameLt (a b : Name) : Bool :=
+  let x := nameOrd a
+  let y := nameOrd b
+  x.1 < y.1 || (x.1 == y.1 && (x.2.1 < y.2.1 || (x.2.1 == y.2.1 && x.2.2 < y.2.2)))
+
+def minName (d : Dir) : Option Name :=
+  d.foldl (fun acc e => match acc with
+    | none => some e.1
+    | some n => if nameLt e.1 n then some e.1 else some n) none
 
 def pickRm (o : RmOrder) (d : Dir) : Option Name :=
   match o with
-  | .listed => d.head?.map (·.1)
-  | .metaFirst => if (d.get .md).isSome then some .md else d.head?.map (·.1)
+  | .sorted => minName d
+  | .metaFirst => if (d.get .md).isSome then some .md else minName d
   | .metaLast =>
-    match d.filter (fun e => e.1 != .md) with
-    | e :: _ => some e.1
-    | [] => d.head?.map (·.1)
+    match minName (d.filter (fun e => e.1 != .md)) with
+    | some n => some n
+    | none => minName d
 
 /-- the next action of the eager scheduler: running chunk writes first (lowest index), then the saver -/
 def autoAct (o : RmOrder) (c : Cfg) : Option Act :=
